@@ -327,6 +327,12 @@ func c19r4(w *World, rr *RuleRun) {
 			return false, "passive path without ReadOnly=true"
 		})
 	}
+	// the flags the server consults are its own: Server.config holds a COPY of the caller's
+	// configuration (a shared pointer would let a later change of the caller's struct - or a second
+	// NewServer with the same struct - flip Passive on a running server)
+	cfgF := w.P.Field("", "Server", "config")
+	_, isPtr := cfgF.Type().Underlying().(*types.Pointer)
+	rr.Oblige("Server.config", "the server keeps its own copy of the configuration (not the caller's pointer)", "-", !isPtr, cfgF.Type().String())
 	// ReadOnly is never stored false/elsewhere in library code
 	for _, st := range w.FieldWrites(w.P.LibFuncs, ro) {
 		fn := enclosingNamed(st.Parent())
